@@ -117,6 +117,35 @@ def c07_signal(ctx):
     return out
 
 
+def c07_syncwait(ctx):
+    """SchedulerFuture::sync returns the operation's value: either the result is already there, or it synchronises with the queue
+    (a sync job on the future's own queue) before reading it."""
+    out = []
+    R = 'ORD-C07-syncwait'
+    fn = _fn(ctx, 'desync::scheduler::scheduler_future::SchedulerFuture::sync', R, out)
+    if not fn:
+        return out
+    key = 'SchedulerFuture::sync|wait-on-queue'
+    takes = calls(fn, 'FutureResultState::take')
+    syncs = [(bb, t) for bb, t in calls(fn, 'Scheduler::sync')]
+    if not takes or len(syncs) != 1:
+        out.append(bad(R, key, 'SchedulerFuture::sync no longer (only) waits by queueing a sync job behind the operation (takes %d, syncs %d)' % (len(takes), len(syncs)), fn=fn.name))
+        return out
+    # the first take's Some edge may return at once; every other path to the return passes the sync on self.queue
+    e = result_edges(fn, takes[0][0])
+    some = edge_for(e, OPTION, 'Some') if e else None
+    none = edge_for(e, OPTION, 'None') if e else None
+    qarg = [a for a in syncs[0][1]['args'] if a['k'] != 'const' and 'JobQueue' in clean_ty(a['pl']['ty'])]
+    own_q = bool(qarg) and 'self.queue' in render(fn.expr_of_operand(qarg[0]))
+    if none is None:
+        out.append(undecided(R, key, 'shape not recognised'))
+    elif fn.must_pass(none, set(fn.exits()), {syncs[0][0]}) and own_q:
+        out.append(ok(R, key, 'a result that is not there yet is obtained after a sync on the future\'s own queue', fn=fn.name))
+    else:
+        out.append(bad(R, key, 'sync() can return without the result having been produced and without waiting on the queue', fn=fn.name))
+    return out
+
+
 def c07_own(ctx):
     """The job is owned by the queue, not by the returned future: SchedulerFuture has no field that can hold a job and its Drop does nothing to the queue."""
     F = ctx.F
@@ -458,10 +487,40 @@ def c03_dormant(ctx):
             out.append(bad(R, key, 'busy is cleared outside the critical section that fetched (or not only on the nothing-to-run edge): a queue scheduled in between is seen by nobody', loc=body.loc(*badw[0]), fn=body.name))
         else:
             out.append(ok(R, key, 'busy is cleared only on the nothing-to-run edge, inside the fetching critical section', fn=body.name))
-    # the run call is on the Some edge
-    e = None
-    for bb2, b2 in enumerate(body.blocks):
-        pass
+    # the thread leaves its loop only through the nothing-to-run edge
+    key = 'thread-body|exit-only-on-none'
+    if none_edge is not None and fetch.t['target'] is not None:
+        # the loop flag(s): user bool variables set to true inside the body; each such store must lie on the nothing-to-run edge
+        flag_sets = []
+        for bb2, b2 in enumerate(body.blocks):
+            if b2['cleanup']:
+                continue
+            for s2 in b2['stmts']:
+                if s2['k'] == 'assign' and not s2['pl']['p'] and body.local_name(s2['pl']['l']) and body.local_ty(s2['pl']['l']) == 'bool' \
+                        and s2['rv']['k'] == 'use' and s2['rv']['op']['k'] == 'const' and str(s2['rv']['op'].get('val')) == '1':
+                    flag_sets.append(bb2)
+        returns_inside = [x for x in body.exits() if x in body.reachable_blocks(fetch.t['target']) and not flag_sets]
+        # every test of the fetched value (is_none(), or a match on it after it was moved) has a nothing-to-run edge
+        none_edges = {none_edge}
+        aliases = {fetch.t['dest']['l']}
+        for _ in range(4):
+            for b2 in body.blocks:
+                for s2 in b2['stmts']:
+                    if s2['k'] == 'assign' and not s2['pl']['p'] and s2['rv']['k'] == 'use' and s2['rv']['op']['k'] in ('move', 'copy') \
+                            and not s2['rv']['op']['pl']['p'] and s2['rv']['op']['pl']['l'] in aliases:
+                        aliases.add(s2['pl']['l'])
+        for bb2, b2 in enumerate(body.blocks):
+            t2 = b2['term']
+            if t2 and t2['k'] == 'switch' and not b2['cleanup']:
+                for s2 in b2['stmts']:
+                    if s2['k'] == 'assign' and s2['rv']['k'] == 'discr' and not s2['rv']['pl']['p'] and s2['rv']['pl']['l'] in aliases:
+                        m = dict((v, tb) for v, tb in t2['targets'])
+                        none_edges.add(m.get('0', t2['otherwise']) if '0' in m else (t2['otherwise'] if '1' in m else None))
+        none_edges.discard(None)
+        if flag_sets and all(any(edom(body, ne, x) for ne in none_edges) for x in flag_sets):
+            out.append(ok(R, key, 'the pool thread stops looking for work only after a fetch that found nothing', fn=body.name))
+        else:
+            out.append(bad(R, key, 'the pool thread can leave its loop (stay marked busy and never look again) without having found the schedule empty', fn=body.name))
     # scheduler side: test, set and hand-over in one region
     Hs = ctx.held(sd)
     sets = [(bb, i) for (bb, i, v) in _deref_bool_writes(ctx, sd, 'thread.busy') if str(v) == '1']
@@ -1163,6 +1222,16 @@ def c16(ctx):
         out.append(ok(R, key, '`closed` is consulted at the start of the poll and again before going to sleep (%d reads)' % len(reads), fn=k.name))
     else:
         out.append(bad(R, key, 'the producer consults `closed` only %d time(s)' % len(reads), fn=k.name))
+    # drop marks the core closed, under its lock
+    dr0 = F.fn('<desync::pipe::PipeStream as core::ops::drop::Drop>::drop')
+    if dr0:
+        u0 = FieldUse(dr0, 'desync::pipe::PipeStreamCore')
+        sets = [(bb, i) for (bb, i, v) in u0.assigns.get('closed', []) if v[0] == 'const' and str(v[1]) == '1']
+        H0 = ctx.held(dr0)
+        if sets and all('PipeStream.core' in H0.held_before(bb, i) for bb, i in sets) and all_paths_pass(dr0, 0, [bb for bb, _ in sets]):
+            out.append(ok(R, 'PipeStream::drop|sets-closed', 'dropping the output stream marks the core closed (under its lock) on every path', fn=dr0.name))
+        else:
+            out.append(bad(R, 'PipeStream::drop|sets-closed', 'dropping the output stream does not (always) mark the core closed: the producer keeps reading its input', fn=dr0.name))
     # on_drop runs on the disposal queue
     dr = F.fn('<desync::pipe::PipeStream as core::ops::drop::Drop>::drop')
     key = 'PipeStream::drop|on_drop-on-chute'
